@@ -319,6 +319,171 @@ theorem never_partial (c : Cfg) (hne : c.target ≠ c.staged) (fs : Fs) (hu : Un
   · simp
   · simp
 
+
+/-! ### histories of saves onto one target -/
+
+theorem uniq_exec (c : Cfg) (fs : Fs) (s : Step) (h : Uniq fs) : Uniq (exec c fs s) := by
+  cases s <;> simp only [exec]
+  · exact uniq_fsSet _ _ _ h
+  · exact h
+  · split
+    · exact uniq_fsSet _ _ _ h
+    · exact h
+  · exact uniq_fsSet _ _ _ h
+  · exact uniq_fsErase _ _ h
+  · split
+    · exact uniq_fsErase _ _ (uniq_fsSet _ _ _ h)
+    · exact h
+
+theorem uniq_run (c : Cfg) (l : List Step) : ∀ (fs : Fs) (fault : Option Nat), Uniq fs →
+    Uniq (run c fs l fault).1 := by
+  induction l with
+  | nil => intro fs fault h; cases fault <;> simpa [run] using h
+  | cons s rest ih =>
+    intro fs fault h
+    cases fault with
+    | none => rw [run]; exact ih _ _ (uniq_exec c fs s h)
+    | some k =>
+      cases k with
+      | zero => simp only [run, SaveFs.discard]; exact uniq_fsErase _ _ h
+      | succ k => rw [run]; exact ih _ _ (uniq_exec c fs s h)
+
+theorem run_none_not_raised (c : Cfg) (l : List Step) : ∀ (fs : Fs), (run c fs l .none).2 = false := by
+  induction l with
+  | nil => intro fs; simp [run]
+  | cons s rest ih => intro fs; rw [run]; exact ih _
+
+/-- **a call that raises never installs anything**: afterwards the target is what it was
+before the call, or (when the fault hit the install step after the old target had been
+removed) absent -/
+theorem raise_never_installs (c : Cfg) (hne : c.target ≠ c.staged) (fs : Fs) (hu : Uniq fs)
+    (zip : Bool) (nTmp nWrites : Nat) (fault : Option Nat) :
+    let r := run c fs (steps zip nTmp nWrites (fsGet fs c.target).isSome) fault
+    r.2 = true → (fsGet r.1 c.target = fsGet fs c.target ∨ fsGet r.1 c.target = .none) := by
+  intro r hraised
+  have hso := stagePart_stagingOnly zip nTmp nWrites
+  have hkeep := staging_keeps_target c hne (stagePart zip nTmp nWrites) fs .none hso
+  have hu1 : Uniq (run c fs (stagePart zip nTmp nWrites) .none).1 := uniq_run c _ fs .none hu
+  generalize hfs1 : (run c fs (stagePart zip nTmp nWrites) .none).1 = fs1 at hkeep hu1
+  have hr : r = run c fs (stagePart zip nTmp nWrites ++ installPart (fsGet fs c.target).isSome) fault := rfl
+  rw [run_append] at hr
+  cases fault with
+  | none =>
+    simp only [hfs1] at hr
+    rw [hr, run_none_not_raised] at hraised
+    cases hraised
+  | some k =>
+    by_cases hk : k < (stagePart zip nTmp nWrites).length
+    · simp only [hk, if_true] at hr
+      rw [hr]
+      exact Or.inl (staging_keeps_target c hne _ fs (some k) hso)
+    · simp only [hk, if_false, hfs1] at hr
+      cases hex : (fsGet fs c.target).isSome with
+      | false =>
+        simp only [hex, installPart, Bool.false_eq_true, if_false, List.nil_append] at hr
+        generalize k - (stagePart zip nTmp nWrites).length = j at hr
+        cases j with
+        | zero =>
+          simp only [run, SaveFs.discard] at hr
+          rw [hr]
+          left
+          simp [fsGet_fsErase_other _ _ _ hne, hkeep]
+        | succ j =>
+          simp only [run] at hr
+          rw [hr] at hraised
+          cases hraised
+      | true =>
+        simp only [hex, installPart, if_true, List.singleton_append] at hr
+        generalize k - (stagePart zip nTmp nWrites).length = j at hr
+        cases j with
+        | zero =>
+          simp only [run, SaveFs.discard] at hr
+          rw [hr]
+          left
+          simp [fsGet_fsErase_other _ _ _ hne, hkeep]
+        | succ j =>
+          cases j with
+          | zero =>
+            simp only [run, exec, SaveFs.discard] at hr
+            rw [hr]
+            right
+            rw [fsGet_fsErase_other _ _ _ hne]
+            exact fsGet_fsErase_same _ _ hu1
+          | succ j =>
+            simp only [run] at hr
+            rw [hr] at hraised
+            cases hraised
+
+/-- what one call does to the target: it keeps it, removes it, or — only if the call
+returned normally — installs its own complete object -/
+theorem call_target (T : String) (k : Call) (hT : k.cfg.target = T) (hS : k.cfg.staged ≠ T) (fs : Fs) (hu : Uniq fs) :
+    Uniq (k.apply fs) ∧
+    (fsGet (k.apply fs) T = fsGet fs T ∨ fsGet (k.apply fs) T = .none ∨
+      (fsGet (k.apply fs) T = some (.complete k.cfg.id) ∧ k.succeeded fs = true)) := by
+  have hne : k.cfg.target ≠ k.cfg.staged := by rw [hT]; exact Ne.symm hS
+  unfold Call.apply Call.succeeded Call.outcome save
+  by_cases h1 : (!k.levelOk) = true
+  · simp only [h1, if_true]; exact ⟨hu, by simp⟩
+  · simp only [h1]
+    by_cases h2 : ((fsGet fs k.cfg.target).isSome && !k.modeO) = true
+    · simp only [h2, if_true]; exact ⟨hu, by simp⟩
+    · simp only [h2]
+      by_cases h3 : (!k.zip && k.dirHasExt) = true
+      · simp only [h3, if_true]; exact ⟨hu, by simp⟩
+      · simp only [h3]
+        refine ⟨uniq_run _ _ _ _ hu, ?_⟩
+        have hnp := no_partial k.cfg hne fs hu k.zip k.nTmp k.nWrites k.fault
+        have hri := raise_never_installs k.cfg hne fs hu k.zip k.nTmp k.nWrites k.fault
+        simp only [] at hnp hri
+        rw [← hT]
+        cases hr2 : (run k.cfg fs (steps k.zip k.nTmp k.nWrites (fsGet fs k.cfg.target).isSome) k.fault).2 with
+        | true =>
+          rcases hri hr2 with h | h
+          · exact Or.inl h
+          · exact Or.inr (Or.inl h)
+        | false => exact Or.inr (Or.inr ⟨hnp.2 hr2, by simp⟩)
+
+/-- **C08 over histories.**  For ANY sequence of `save` calls onto one target — any stores,
+modes, options, object graphs, with an exception injected at any primitive of any of the
+calls, or none — the target afterwards is what it was before the history, or absent, or the
+COMPLETE object written by one of the calls that returned normally.  In particular it never
+holds a partial object, and never the object of a call that raised. -/
+theorem saves_history (T : String) (ks : List Call) :
+    ∀ (fs : Fs), Uniq fs → (∀ k ∈ ks, k.cfg.target = T ∧ k.cfg.staged ≠ T) →
+      Uniq (runCalls fs ks) ∧
+      (fsGet (runCalls fs ks) T = fsGet fs T ∨ fsGet (runCalls fs ks) T = .none ∨
+        ∃ i ∈ succeededIds fs ks, fsGet (runCalls fs ks) T = some (.complete i)) := by
+  induction ks with
+  | nil => intro fs hu _; exact ⟨hu, Or.inl rfl⟩
+  | cons k rest ih =>
+    intro fs hu hall
+    obtain ⟨hT, hS⟩ := hall k (by simp)
+    obtain ⟨hu1, h1⟩ := call_target T k hT hS fs hu
+    obtain ⟨hu2, h2⟩ := ih (k.apply fs) hu1 (fun k' hk' => hall k' (by simp [hk']))
+    refine ⟨by simpa [runCalls] using hu2, ?_⟩
+    have hrc : runCalls fs (k :: rest) = runCalls (k.apply fs) rest := by simp [runCalls]
+    rw [hrc]
+    simp only [succeededIds]
+    rcases h2 with h2 | h2 | ⟨i, hi, h2⟩
+    · rw [h2]
+      rcases h1 with h1 | h1 | ⟨h1, hs⟩
+      · exact Or.inl h1
+      · exact Or.inr (Or.inl h1)
+      · exact Or.inr (Or.inr ⟨k.cfg.id, by simp [hs], h1⟩)
+    · exact Or.inr (Or.inl h2)
+    · exact Or.inr (Or.inr ⟨i, List.mem_append_right _ hi, h2⟩)
+
+/-- in particular: if the target held no partial object before the history, it never does -/
+theorem saves_history_never_partial (T : String) (ks : List Call) (fs : Fs) (hu : Uniq fs)
+    (hall : ∀ k ∈ ks, k.cfg.target = T ∧ k.cfg.staged ≠ T)
+    (hpre : ∀ i n, fsGet fs T ≠ some (.partialObj i n)) :
+    ∀ i n, fsGet (runCalls fs ks) T ≠ some (.partialObj i n) := by
+  intro i n
+  rcases (saves_history T ks fs hu hall).2 with h | h | ⟨j, _, h⟩ <;> rw [h]
+  · exact hpre i n
+  · simp
+  · simp
+
 /-! ### non-vacuity -/
 private def c0 : Cfg := { target := "out.zip", staged := "out.zip.tmp-1", id := 7 }
 private def fs0 : Fs := [("sibling", .foreign 1), ("out.zip", .complete 3)]
@@ -326,5 +491,19 @@ example : Uniq fs0 := by simp [Uniq, fs0, fsGet]
 example : (run c0 fs0 (steps true 3 4 true) (some 5)).1 = fs0 := by decide
 example : (run c0 fs0 (steps true 3 4 true) (some 10)).1 = [("sibling", .foreign 1)] := by decide
 example : (run c0 fs0 (steps true 3 4 true) .none).1 = [("sibling", .foreign 1), ("out.zip", .complete 7)] := by decide
+
+/-- a history on one target: a save that fails while staging, a save that succeeds, an
+overwriting save that fails at the install step (after the old object was removed), a
+write-once save that is refused -/
+private def mkCall (id : Nat) (modeO : Bool) (fault : Option Nat) : Call :=
+  { cfg := { target := "out.zip", staged := "out.zip.tmp-" ++ toString id, id := id }, modeO := modeO,
+    levelOk := true, dirHasExt := false, zip := true, nTmp := 2, nWrites := 3, fault := fault }
+private def hist : List Call := [mkCall 1 true (some 4), mkCall 2 false .none, mkCall 3 true (some 8), mkCall 4 false .none]
+example : runCalls [("sibling", .foreign 1)] (hist.take 1) = [("sibling", .foreign 1)] := by decide
+example : runCalls [("sibling", .foreign 1)] (hist.take 2) = [("sibling", .foreign 1), ("out.zip", .complete 2)] := by decide
+example : runCalls [("sibling", .foreign 1)] (hist.take 3) = [("sibling", .foreign 1)] := by decide
+example : runCalls [("sibling", .foreign 1)] hist = [("sibling", .foreign 1), ("out.zip", .complete 4)] := by decide
+example : succeededIds [("sibling", .foreign 1)] hist = [2, 4] := by decide
+example : ∀ k ∈ hist, k.cfg.target = "out.zip" ∧ k.cfg.staged ≠ "out.zip" := by decide
 
 end QuantemModel.Props.C08
